@@ -52,6 +52,9 @@
 #include <cstring>
 #include <cstdlib>
 #include <algorithm>
+#include <execinfo.h>
+#include <dlfcn.h>
+#include <cxxabi.h>
 
 using namespace xh;
 
@@ -97,13 +100,50 @@ public:
             outLine(buf);
         }
         std::unordered_map<void*, BlockInfo>::iterator it = live.find(p);
-        if (it == live.end()) { nBad++; return; }     // reported by the monitor; do not corrupt our own heap
+        if (it == live.end()) {
+            // a block that is not outstanding: the monitor reports it; the harness adds the stack of this (second) free
+            nBad++;
+            printStack();
+            return;
+        }
         live.erase(it);
         nFree++;
-        free(p);
+        // QUARANTINE: the memory is kept (contents intact) until the check point of the case.  A second delete of the same
+        // object then still finds its vtable and its XMemory header and reaches deallocate() again, where the monitor sees
+        // it, instead of killing the process somewhere inside a destructor; addresses are never reused within a case.
+        quarantine.push_back(p);
     }
-    // forget blocks that were reported as outstanding so that later cases start clean (memory is abandoned)
-    size_t abandon() { size_t n = live.size(); live.clear(); order.clear(); return n; }
+    std::vector<void*> quarantine;
+    void printStack() {
+        void* fr[24];
+        int n = backtrace(fr, 24);
+        std::string s = "bt m" + std::to_string(id);
+        int shown = 0;
+        for (int i = 2; i < n && shown < 9; i++) {
+            Dl_info info;
+            if (dladdr(fr[i], &info) && info.dli_sname) {
+                int st = 0;
+                char* dm = abi::__cxa_demangle(info.dli_sname, 0, 0, &st);
+                std::string nm = (st == 0 && dm) ? dm : info.dli_sname;
+                free(dm);
+                size_t par = nm.find('(');
+                if (par != std::string::npos) nm = nm.substr(0, par);
+                for (size_t k = 0; k < nm.size(); k++) if (nm[k] == ' ') nm[k] = '_';
+                if (nm.find("XMemory::operator_delete") != std::string::npos) continue;
+                s += " <" + nm;
+                shown++;
+            }
+        }
+        outLine(s);
+    }
+    // forget blocks that were reported as outstanding so that later cases start clean (memory is abandoned);
+    // the quarantined blocks really go back to malloc now
+    size_t abandon() {
+        size_t n = live.size(); live.clear(); order.clear();
+        for (size_t i = 0; i < quarantine.size(); i++) free(quarantine[i]);
+        quarantine.clear();
+        return n;
+    }
 };
 
 static LedgerMM* gGlobal = 0;     // manager 1 while a session is open
@@ -300,7 +340,10 @@ struct Cfg {
     std::string src, enc, pub, sys, tmp;
     std::map<std::string, std::string> extenc;   // forced encoding on the source the resolver returns for that entity
     int preload;                                    // load the .xsd resources as cached grammars before parsing
-    Cfg() : ns(1), val(0), sch(0), fc(0), pool(0), excKind(0), filter(0), ents(1), preload(0) {}
+    int xff;                                        // setExitOnFirstFatalError (default of the library: true)
+    int cache, usec, lock;                          // cacheGrammarFromParse / useCachedGrammarInParse (-1: on iff an application pool
+                                                    // is given), lock: the application pool is locked before the parser is created
+    Cfg() : ns(1), val(0), sch(0), fc(0), pool(0), excKind(0), filter(0), ents(1), preload(0), xff(1), cache(-1), usec(-1), lock(0) {}
 };
 
 static const XMLCh* scannerName(const std::string& s) {
@@ -321,6 +364,8 @@ struct AnyParser {
     XercesDOMParser* dom;
     DOMLSParser* ls; HLS* hls;
     XMLPScanToken token;
+    bool cacheOn() const { return cfg.cache < 0 ? gp != 0 : cfg.cache != 0; }
+    bool useOn() const { return cfg.usec < 0 ? gp != 0 : cfg.usec != 0; }
     AnyParser(Cfg& c, LedgerMM* m, XMLGrammarPool* g) : cfg(c), mm(m), gp(g), sax(0), h1(0), sax2(0), h2(0), dom(0), ls(0), hls(0) {
         ctl.ext = &cfg.ext; ctl.extenc = &cfg.extenc; ctl.mm = mm; ctl.excKind = cfg.excKind;
         if (cfg.api == "sax") {
@@ -330,7 +375,9 @@ struct AnyParser {
             sax->useScanner(scannerName(cfg.scn));
             sax->setDoNamespaces(cfg.ns); sax->setDoSchema(cfg.sch); sax->setValidationSchemaFullChecking(cfg.fc);
             sax->setValidationScheme(cfg.val == 0 ? SAXParser::Val_Never : cfg.val == 1 ? SAXParser::Val_Always : SAXParser::Val_Auto);
-            if (gp) { sax->cacheGrammarFromParse(true); sax->useCachedGrammarInParse(true); }
+            sax->setExitOnFirstFatalError(cfg.xff != 0);
+            // (useCachedGrammarInParse first: cacheGrammarFromParse(true) switches it on by itself)
+            sax->cacheGrammarFromParse(cacheOn()); sax->useCachedGrammarInParse(useOn());
         } else if (cfg.api == "sax2") {
             sax2 = XMLReaderFactory::createXMLReader(mm, gp);
             h2 = new H2(&ctl);
@@ -343,7 +390,9 @@ struct AnyParser {
             sax2->setFeature(XMLUni::fgXercesSchemaFullChecking, cfg.fc != 0);
             sax2->setFeature(XMLUni::fgSAX2CoreValidation, cfg.val != 0);
             sax2->setFeature(XMLUni::fgXercesDynamic, cfg.val == 2);
-            if (gp) { sax2->setFeature(XMLUni::fgXercesCacheGrammarFromParse, true); sax2->setFeature(XMLUni::fgXercesUseCachedGrammarInParse, true); }
+            sax2->setFeature(XMLUni::fgXercesContinueAfterFatalError, cfg.xff == 0);
+            sax2->setFeature(XMLUni::fgXercesCacheGrammarFromParse, cacheOn());
+            try { sax2->setFeature(XMLUni::fgXercesUseCachedGrammarInParse, useOn()); } catch (...) { }
         } else if (cfg.api == "dom") {
             dom = new (mm) XercesDOMParser(0, mm, gp);
             h1 = new H1(&ctl);
@@ -353,7 +402,8 @@ struct AnyParser {
             dom->setValidationScheme(cfg.val == 0 ? XercesDOMParser::Val_Never : cfg.val == 1 ? XercesDOMParser::Val_Always : XercesDOMParser::Val_Auto);
             dom->setCreateEntityReferenceNodes(cfg.ents != 0);
             dom->setCreateSchemaInfo(cfg.sch && cfg.fc);
-            if (gp) { dom->cacheGrammarFromParse(true); dom->useCachedGrammarInParse(true); }
+            dom->setExitOnFirstFatalError(cfg.xff != 0);
+            dom->cacheGrammarFromParse(cacheOn()); dom->useCachedGrammarInParse(useOn());
         } else {
             static const XMLCh lsFeat[] = { 'L', 'S', 0 };
             DOMImplementation* impl = DOMImplementationRegistry::getDOMImplementation(lsFeat);
@@ -369,7 +419,9 @@ struct AnyParser {
             if (cfg.val == 2) dc->setParameter(XMLUni::fgDOMValidateIfSchema, true);
             else dc->setParameter(XMLUni::fgDOMValidate, cfg.val == 1);
             dc->setParameter(XMLUni::fgDOMEntities, cfg.ents != 0);
-            if (gp) { dc->setParameter(XMLUni::fgXercesCacheGrammarFromParse, true); dc->setParameter(XMLUni::fgXercesUseCachedGrammarInParse, true); }
+            dc->setParameter(XMLUni::fgXercesContinueAfterFatalError, cfg.xff == 0);
+            dc->setParameter(XMLUni::fgXercesCacheGrammarFromParse, cacheOn());
+            try { dc->setParameter(XMLUni::fgXercesUseCachedGrammarInParse, useOn()); } catch (...) { }
             if (cfg.filter) ls->setFilter(hls);
         }
         if (cfg.preload && !ls) {
@@ -524,7 +576,9 @@ static void checkpoint(const std::string& label, const std::vector<int>& ids) {
 static XMLGrammarPool* makePool(const Cfg& cfg) {
     if (!cfg.pool) return 0;
     LedgerMM* m3 = mgr(3);
-    return new (m3) XMLGrammarPoolImpl(m3);
+    XMLGrammarPool* gp = new (m3) XMLGrammarPoolImpl(m3);
+    if (cfg.lock) gp->lockPool();      // a locked pool refuses cacheGrammar / orphanGrammar: the resolver's own bucket takes over
+    return gp;
 }
 
 // progressive parse abandoned after j calls of parseNext (j = -1: run to the end); how: 0 parseReset then destroy,
@@ -552,14 +606,30 @@ static std::string runProgressive(AnyParser& p, const std::string& doc, long j, 
     return r;
 }
 
+// "@@REP(x,200000)@@" in a document stands for 200000 times the character x (large text without megabyte request lines)
+static std::string expandReps(const std::string& in) {
+    std::string out;
+    size_t pos = 0;
+    while (true) {
+        size_t a = in.find("@@REP(", pos);
+        if (a == std::string::npos) { out += in.substr(pos); break; }
+        size_t b = in.find(")@@", a);
+        if (b == std::string::npos || a + 8 > in.size() || in[a + 7] != ',') { out += in.substr(pos); break; }
+        out += in.substr(pos, a - pos);
+        out.append((size_t)strtoul(in.c_str() + a + 8, 0, 10), in[a + 6]);
+        pos = b + 3;
+    }
+    return out;
+}
 static Cfg readCfg(const KV& kv) {
     Cfg c;
     c.api = get(kv, "api", "sax2"); c.scn = get(kv, "scn", "IG");
     c.ns = geti(kv, "ns", 1); c.val = geti(kv, "val", 0); c.sch = geti(kv, "sch", 0); c.fc = geti(kv, "fc", 0);
     c.pool = geti(kv, "pool", 0); c.excKind = geti(kv, "exc", 0); c.filter = geti(kv, "filter", 0); c.ents = geti(kv, "ents", 1);
-    c.doc = unhex(get(kv, "doc", "-"));
+    c.doc = expandReps(unhex(get(kv, "doc", "-")));
     c.src = get(kv, "src", ""); c.enc = get(kv, "enc", ""); c.pub = get(kv, "pub", ""); c.sys = get(kv, "sys", ""); c.tmp = get(kv, "tmp", "");
     c.preload = geti(kv, "preload", 0);
+    c.xff = geti(kv, "xff", 1); c.cache = geti(kv, "cache", -1); c.usec = geti(kv, "usec", -1); c.lock = geti(kv, "lock", 0);
     {
         std::string ee = get(kv, "extenc", "");
         size_t pos = 0;
@@ -579,7 +649,7 @@ static Cfg readCfg(const KV& kv) {
         if (comma == std::string::npos) comma = ext.size();
         std::string item = ext.substr(pos, comma - pos);
         size_t col = item.find(':');
-        if (col != std::string::npos) c.ext[item.substr(0, col)] = unhex(item.substr(col + 1));
+        if (col != std::string::npos) c.ext[item.substr(0, col)] = expandReps(unhex(item.substr(col + 1)));
         pos = comma + 1;
     }
     return c;
